@@ -684,6 +684,90 @@ def populate_template(slo, start_at):
     return ("{ guardNonEmpty := true,\n    thenSteps := [" + ", ".join("." + c for (c, _) in rows) + "],   -- " + "; ".join(t for (_, t) in rows)[:300].replace("-/", "- /")
             + f"\n    elseTail := .{els} }}")
 
+WKEYS = {"Entity < # Archetype >": "entity", "EntityDirect < # Archetype >": "entityDirect",
+         "EntityAny": "entityAny", "EntityDirectAny": "entityDirectAny"}
+WOPS = {"resolve_contains": "contains", "resolve_direct": "toDirect", "resolve_destroy": "destroy"}
+WCALL = {"contains": "contains", "to_direct": "toDirect", "destroy": "destroy"}
+
+
+def world_dispatch(toks):
+    """(rows, tryfrom rows) from the `quote!` of generate_world."""
+    params, lo, hi = find_fn(toks, "generate_world")
+    ts = toks_of(toks, lo, hi)
+    n = len(ts)
+    rows, tfs = [], []
+    i = 0
+    while i < n - 4:
+        if ts[i] == "impl" and ts[i + 1] == "WorldCanResolve" and ts[i + 2] == "<":
+            j = i + 3
+            depth = 1
+            while depth:
+                depth += {"<": 1, ">": -1, ">>": -2}.get(ts[j], 0)
+                j += 1
+            raw = ts[i + 3:j]
+            # closing may be `>` or part of `>>`
+            ktext = " ".join(raw[:-1]) if raw[-1] == ">" else " ".join(raw[:-1] + [">"])
+            key = WKEYS.get(ktext, "other")
+            b = j
+            while ts[b] != "{":
+                b += 1
+            e = _end_of(ts, b)
+            k = b + 1
+            while k < e - 1:
+                if ts[k] == "fn":
+                    name = ts[k + 1]
+                    p = k + 2
+                    while ts[p] != "(":
+                        p += 1
+                    p = _end_of(ts, p)
+                    while ts[p] != "{":
+                        p += 1
+                    be = _end_of(ts, p)
+                    body = " ".join(ts[p + 1:be - 1])
+                    m1 = re.match(r"^self \. archetype(_mut)? :: < # Archetype > \( \) \. (contains|to_direct|destroy) \( entity \)$", body)
+                    m2 = re.match(r'^match entity \. try_into \( \) \{ # \( Ok \( (SelectEntity|SelectEntityDirect) :: # Archetype \( entity \) \) => '
+                                  r'self \. # archetype \. (contains|to_direct|destroy) \( entity \)( \. map \( \| e \| e \. into \( \) \)| \. map \( \| _ \| \( \) \))? , \) \* '
+                                  r'Err \( _ \) => panic ! \( "invalid entity type" \) ,? \}$', body)
+                    if m1:
+                        kind = f"(.typedDelegate .{WCALL[m1.group(2)]} {'true' if m1.group(1) else 'false'})"
+                    elif m2:
+                        post = {None: "none", " . map ( | e | e . into ( ) )": "mapInto", " . map ( | _ | ( ) )": "mapUnit"}[m2.group(3)]
+                        sel = "entity" if m2.group(1) == "SelectEntity" else "entityDirect"
+                        kind = f"(.dynMatch .{sel} .{WCALL[m2.group(2)]} .{post})"
+                    else:
+                        kind = ".unknown"
+                    rows.append((key, WOPS.get(name, "other"), kind, body))
+                    k = be
+                else:
+                    k += 1
+            i = e
+            continue
+        if ts[i] == "impl" and ts[i + 1] == "TryFrom" and ts[i + 2] == "<" and ts[i + 3] in ("EntityAny", "EntityDirectAny") and ts[i + 4] == ">" \
+                and ts[i + 5] == "for" and ts[i + 6] in ("SelectEntity", "SelectEntityDirect"):
+            src = "entityAny" if ts[i + 3] == "EntityAny" else "entityDirectAny"
+            carries = "entity" if ts[i + 6] == "SelectEntity" else "entityDirect"
+            b = i + 7
+            while ts[b] != "{":
+                b += 1
+            e = _end_of(ts, b)
+            blk = ts[b + 1:e - 1]
+            f = blk.index("fn")
+            p = f
+            while blk[p] != "{":
+                p = _end_of(blk, p) if blk[p] in OPEN else p + 1
+            body = " ".join(blk[p + 1:_end_of(blk, p) - 1])
+            m = re.match(r"^match entity \. archetype_id \( \) \{ # \( # Archetype :: ARCHETYPE_ID => \{ Ok \( (SelectEntity|SelectEntityDirect) :: # Archetype \( "
+                         r"(Entity|EntityDirect) :: < # Archetype > :: from_any_unchecked \( entity \) \) \) \} , \) \* _ => Err \( EcsError :: InvalidEntityType \) ,? \}$", body)
+            if m and m.group(1) == ts[i + 6]:
+                kind = "(.okFromAnyUnchecked ." + ("entity" if m.group(2) == "Entity" else "entityDirect") + ")"
+            else:
+                kind = ".unknown"
+            tfs.append((src, carries, kind, body))
+            i = e
+            continue
+        i += 1
+    return rows, tfs
+
 SLOT = [
     DBG,
     (r"^self \. index = SlotIndex :: new_data \( p0 \) ;$", "indexNewData", None),
@@ -887,6 +971,22 @@ def extract_steps():
             lines.append(f"  ⟨.{v}, {mm}, .{kind}⟩{',' if k + 1 < len(rows) else ''}   -- {src}")
         lines.append("]")
         parts.append("\n".join(lines))
+    # --- world-level key dispatch (macros/src/generate/world.rs)
+    try:
+        wtoks = tokenize(read("macros/src/generate/world.rs"))
+        wrows, wtf = world_dispatch(wtoks)
+    except (ExtractError, IndexError, ValueError, OSError, KeyError) as ex:
+        wrows, wtf = [("other", "other", ".unknown", f"NOT RECOGNISED: {ex}")], [("other", "other", ".unknown", f"NOT RECOGNISED: {ex}")]
+    lines = ["/-- macros/src/generate/world.rs `generate_world`: bodies of the `WorldCanResolve<K>` methods -/", "def worldRows : List DRow := ["]
+    for k, (key, op, kind, src) in enumerate(wrows):
+        lines.append(f"  ⟨.{key}, .{op}, {kind}⟩{',' if k + 1 < len(wrows) else ''}   -- {src.replace('-/', '- /')[:140]}")
+    lines.append("]")
+    parts.append("\n".join(lines))
+    lines = ["/-- … and of the `TryFrom<EntityAny> for SelectEntity` / `TryFrom<EntityDirectAny> for SelectEntityDirect` conversions -/", "def worldTryFrom : List TFRow := ["]
+    for k, (src_, car, kind, src) in enumerate(wtf):
+        lines.append(f"  ⟨.{src_}, .{car}, {kind}⟩{',' if k + 1 < len(wtf) else ''}   -- {src.replace('-/', '- /')[:140]}")
+    lines.append("]")
+    parts.append("\n".join(lines))
     # --- with_capacity (statements + literal) and clear_events
     try:
         params, lo, hi = find_fn(sto, "with_capacity")
@@ -959,7 +1059,7 @@ def extract_steps():
     head = ("/- GENERATED by tools/extract.py (tools/extract_steps.py) from /repo/src/archetype/{storage.rs, slot.rs} on every run.\n"
             "   Do not edit.  The statements of the mutating primitives, classified and listed in source order; meaning:\n"
             "   Gecs/Model/Steps.lean; tie theorems: Gecs/Lemmas/GenSteps.lean. -/\n"
-            "import Gecs.Model.Steps\nimport Gecs.Model.ResolveSteps\nimport Gecs.Model.CloneSteps\nimport Gecs.Model.PushSteps\nimport Gecs.Model.KeySteps\nimport Gecs.Model.InitSteps\nimport Gecs.Model.IterSteps\nimport Gecs.Model.LoopSteps\nimport Gecs.Model.BindSteps\nimport Gecs.Model.FindSteps\nimport Gecs.Model.MemSteps\nimport Gecs.Model.FreeListSteps\n\nnamespace Gecs.Gen\n\n")
+            "import Gecs.Model.Steps\nimport Gecs.Model.ResolveSteps\nimport Gecs.Model.CloneSteps\nimport Gecs.Model.PushSteps\nimport Gecs.Model.KeySteps\nimport Gecs.Model.InitSteps\nimport Gecs.Model.IterSteps\nimport Gecs.Model.LoopSteps\nimport Gecs.Model.BindSteps\nimport Gecs.Model.FindSteps\nimport Gecs.Model.MemSteps\nimport Gecs.Model.FreeListSteps\nimport Gecs.Model.DispatchSteps\n\nnamespace Gecs.Gen\n\n")
     return head + "\n\n".join(parts) + "\n\nend Gecs.Gen\n"
 
 
